@@ -96,7 +96,7 @@ def replay_sweep(inputs, ob):
 @unit("C23.O2 _sweep", targets=["vgi_rpc/http/_replay.py::NonceCache._sweep"], replay=replay_sweep, min_obligations=4)
 def sweep(S):
     E = SODict.fresh("E", *KV)
-    S.inputs["E"] = E.items
+    S.inputs["E"] = E.items.snapshot()  # the table as it was before the call (E itself is mutated)
     E0 = E.snapshot()
     now = S.int("now")
     me = mk_cache(S, E, S.int("cap"), S.int("ttl"), now)
@@ -156,7 +156,7 @@ def replay_check_and_add(inputs, ob):
 @unit("C23.O3 check_and_add (+L1 replay lemma, L2 size bound)", targets=["vgi_rpc/http/_replay.py::NonceCache.check_and_add"], replay=replay_check_and_add, min_obligations=10)
 def check_and_add(S):
     E = SODict.fresh("E", *KV)
-    S.inputs["E"] = E.items
+    S.inputs["E"] = E.items.snapshot()  # the table as it was before the call (E itself is mutated)
     E0 = E.snapshot()
     now, cap, ttl = S.int("now"), S.int("cap"), S.int("ttl")
     nonce = S.str("nonce")
@@ -173,7 +173,7 @@ def check_and_add(S):
     S.assume(SInt(E0.length) - 1 - p <= G)  # J: entries newer than n* <= nonces accepted since n*
 
     # _sweep by contract (verified in O2)
-    sw = {}
+    sw = {"E1": E0, "d": SInt(z3.IntVal(0))}  # if the code never sweeps, the "swept" table is the table itself
 
     def sweep_contract(S, me_, now_):
         S.oblige("O3.sweep_called_with_lock_held", "nonce_lock" in S.ghost.get("__held__", []), kind="lock")
